@@ -225,6 +225,7 @@ type DefunCase struct {
 	Args  []string
 	Place string
 	Doc   bool
+	Style string `json:",omitempty"` // spelling of the argument expressions (genArgsRich)
 }
 
 var userNames = []string{"f", "foo", "my-fn", "helper", "compute-x", "f2"}
@@ -298,7 +299,9 @@ func genDefun() *rapid.Generator[DefunCase] {
 		c := DefunCase{}
 		c.Fname = rapid.SampledFrom(userNames).Draw(t, "fname")
 		c.Sig = genSig(t, true)
-		c.Args = genArgs(t, c.Sig)
+		// literals, bare symbols (true, false, the globals v1 v2) and nested
+		// valid calls
+		c.Args, c.Style = genArgsRich(t, c.Sig)
 		c.Place = pick(t, defunPlaces, "place")
 		c.Doc = rapid.IntRange(0, 5).Draw(t, "doc") == 0
 		return c
@@ -365,6 +368,13 @@ func buildDefun(c DefunCase) (*Program, string) {
 	default:
 		return nil, "unknown place " + c.Place
 	}
+	for _, a := range c.Args {
+		if a == "v1" || a == "v2" {
+			// the globals the bare-symbol arguments name
+			p.Forms = append([]*Node{P(`(set 'v1 1)`, nil), P(`(set 'v2 "s")`, nil)}, p.Forms...)
+			break
+		}
+	}
 	return p, ""
 }
 
@@ -415,6 +425,9 @@ func checkDefun(c DefunCase, ctx *vcommon.Ctx) *vcommon.Failure {
 	pred := c.Sig.Bind(effArgs)
 	ctx.Class("place:" + c.Place)
 	ctx.Class("pred:" + pred)
+	if c.Style != "" {
+		ctx.Class("args:" + c.Style)
+	}
 	shape := "fixed"
 	if c.Sig.Rest {
 		shape = "rest"
